@@ -2,10 +2,12 @@ package checks
 
 import (
 	"fmt"
+	"strings"
 
 	"github.com/tormoder/fit"
 
 	"verifharness/lib"
+	"verifharness/ref"
 )
 
 func init() { registrars = append(registrars, registerC03) }
@@ -26,6 +28,7 @@ func registerC03() {
 		Families: []lib.Family{
 			{Name: "filetypes", N: func(string) uint64 { return 256 }, Run: c03FileType},
 			{Name: "routing", N: func(t string) uint64 { return tierN(t, 17*600, 17*30000) }, Run: c03Routing},
+			{Name: "fileid-change", N: func(t string) uint64 { return tierN(t, 17*60, 17*3000) }, Run: c03FileIdChange},
 		},
 	})
 }
@@ -156,4 +159,92 @@ func c03Routing(c *lib.Ctx, idx uint64) {
 		c.Nontrivial(plan.Bytes())
 	}
 	c.Sample("routing", 2, map[string]interface{}{"file_type": lib.FileTypes[fti].Name, "records": len(plan.Records), "routed": hostedN, "dropped": dropped, "unknown": unk})
+}
+
+// c03FileIdChange: a second file_id message that restates, changes or drops
+// the file type. Whatever Decode does with it, a File it returns without an
+// error must be coherent: exactly the accessor matching File.Type() hands out
+// a container, and the File can be encoded.
+func c03FileIdChange(c *lib.Ctx, idx uint64) {
+	rng := lib.NewRand("C03.fileid-change", idx)
+	fti := idx % uint64(len(lib.FileTypes))
+	ft := lib.FileTypes[fti].Type
+	o := lib.GenOpts{FileType: ft, Mesgs: lib.HostedMesgs(ft), Records: 3 + rng.Intn(6), Locals: 2, BigEndian: 50, Serial: true, MaxFields: 3}
+	g := lib.NewPlanGen(rng, o)
+	plan := g.Fill()
+	// Second file_id on a fresh slot.
+	kind := rng.Intn(4)
+	t2 := ft
+	def := ref.Record{IsDef: true, Local: 9, Global: 0, Arch: byte(rng.Intn(2))}
+	data := ref.Record{Local: 9}
+	switch kind {
+	case 0: // same type restated
+		def.Fields = []ref.FieldDef{{Num: 0, Size: 1, Base: 0}}
+		data.Data = [][]byte{{ft}}
+	case 1: // another valid type
+		t2 = lib.FileTypes[(fti+1+uint64(rng.Intn(16)))%17].Type
+		def.Fields = []ref.FieldDef{{Num: 0, Size: 1, Base: 0}}
+		data.Data = [][]byte{{t2}}
+	case 2: // a type without a container
+		t2 = []byte{0, 8, 40, 0xF7, 0xFF}[rng.Intn(5)]
+		def.Fields = []ref.FieldDef{{Num: 0, Size: 1, Base: 0}}
+		data.Data = [][]byte{{t2}}
+	default: // no type field at all
+		t2 = 0xFF
+		def.Fields = []ref.FieldDef{{Num: 1, Size: 2, Base: 0x84}}
+		data.Data = [][]byte{{1, 0}}
+	}
+	plan.Records = append(plan.Records, def, data)
+	g2 := lib.NewPlanGen(rng, o) // more messages after the second file_id
+	recs := g2.Fill().Records
+	// keep g2's file_id definition (its slot may be reused), drop its file_id data record
+	plan.Records = append(plan.Records, recs[0])
+	plan.Records = append(plan.Records, recs[2:]...)
+	b := plan.Bytes()
+	c.SetInflight(b)
+	f, derr, out := lib.GuardedDecode(b)
+	c.Eval()
+	if out.Panicked || out.Hang {
+		c.Violation(b, "Decode panicked on a stream with a second file_id (kind %d): %s", kind, out.Panic)
+		return
+	}
+	c.Count(fmt.Sprintf("second_fileid_kind%d", kind), 1)
+	if kind == 0 {
+		if derr != nil {
+			c.Violation(b, "Decode rejected a stream whose second file_id restates the same type: %v", derr)
+			return
+		}
+	}
+	if derr != nil {
+		c.Count("second_fileid_rejected", 1)
+		c.Nontrivial(b)
+		return
+	}
+	ct := lib.FileContent(f)
+	match := -1
+	for i, t := range lib.FileTypes {
+		if t.Type == ct.FileType {
+			match = i
+		}
+	}
+	for i := range ct.AccessorOK {
+		want := i == match
+		if ct.AccessorOK[i] != want || ct.AccessorNonNil[i] != want {
+			c.Violation(b, "Decode accepted a stream whose second file_id has type %d (first: %d); the File reports type %d but accessor %s: error-free=%v non-nil=%v", t2, ft, ct.FileType, lib.FileTypes[i].Name, ct.AccessorOK[i], ct.AccessorNonNil[i])
+			return
+		}
+	}
+	if match < 0 {
+		c.Violation(b, "Decode accepted a stream and returned a File of type %d, which has no container", ct.FileType)
+		return
+	}
+	_, eerr, eo := lib.GuardedEncode(f, archOrder(0))
+	c.Eval()
+	// Only failures caused by the file type count here (whether every decoded value can be encoded is C07's subject).
+	if eo.Panicked || eerr != nil && (strings.Contains(eerr.Error(), "filetype") || strings.Contains(eerr.Error(), "file type")) {
+		c.Violation(b, "Decode accepted a stream with a second file_id (type %d after %d) but the File cannot be encoded: %v %s", t2, ft, eerr, eo.Panic)
+		return
+	}
+	c.Count("second_fileid_accepted_coherent", 1)
+	c.Nontrivial(b)
 }
